@@ -156,6 +156,7 @@ pub struct Aggregate {
     pub hashes: BTreeMap<u64, String>,
     pub harness_errors: Vec<String>,
     pub longest: (u64, u64),
+    pub stopped_early: bool,
 }
 
 enum Msg {
@@ -244,8 +245,22 @@ pub fn run_batch(scn: &dyn Scenario, tier: Tier, seed: u64, total: u64, workers:
         ws.push(spawn_worker(id, tier, seed, w, workers, total, w as usize, &tx));
     }
     let watchdog = Duration::from_secs(scn.watchdog_s());
+    let max_violations: usize = std::env::var("VERIF_MAX_VIOLATIONS").ok().and_then(|s| s.parse().ok()).unwrap_or(48);
     loop {
         if ws.iter().all(|w| w.done) {
+            break;
+        }
+        if agg.violations.len() >= max_violations {
+            // enough evidence that the property is violated: stop the batch early (the verdict is
+            // already exit 1; exploring the rest of a broken tree only costs time)
+            for w in ws.iter_mut() {
+                if !w.done {
+                    let _ = w.child.kill();
+                    let _ = w.child.wait();
+                    w.done = true;
+                }
+            }
+            agg.stopped_early = true;
             break;
         }
         match rx.recv_timeout(Duration::from_millis(500)) {
@@ -825,6 +840,7 @@ pub fn check_main(scn: &dyn Scenario, tier: Tier, seed: u64) -> i32 {
             "fault_kinds": info.fault_kinds,
             "observations_attributed_elsewhere": foreign,
             "known_findings_seen": known_seen,
+            "stopped_early_after_violations": agg.stopped_early,
             "replays": replay_paths,
         },
         "assumptions": assumptions,
